@@ -371,7 +371,6 @@ func VerifHarness_C14_node() {
 	verifReach("C14.node")
 }
 
-
 type c14PodStore struct {
 	v1lister.PodLister
 	pods []*v1.Pod
